@@ -630,7 +630,16 @@ func checkGetters(p *load.Program, r *Roles, col *Col, res *UnitResult, run func
 				col.Check("C19.R6", "BaseNode."+g+":default-mode", ok, rt.Pos, "an unset error-handling mode must read as \"continue\", got "+v.Pretty(), nil)
 				continue
 			}
-			col.Check("C19.R5", "BaseNode."+g+":identity", ok, rt.Pos, "the getter must return the configured field, got "+v.Pretty(), nil)
+			rule := "C19.R5"
+			switch g {
+			case "GetBatchConcurrency":
+				rule += ",C08.R6"
+			case "GetMaxRetries":
+				rule += ",C02.R1"
+			case "GetWait":
+				rule += ",C20.R1"
+			}
+			col.Check(rule, "BaseNode."+g+":identity", ok, rt.Pos, "the getter must return the configured field, got "+v.Pretty(), nil)
 		}
 	}
 }
